@@ -440,6 +440,20 @@ func main() {
 								if !bytes.Equal(buf.Bytes(), want) {
 									return explore.Failf("WriteHeader-bytes-depend-on-previous-call:"+pr.name, "got %x want %x", buf.Bytes(), want)
 								}
+								// the same through a *bufio.Writer whose buffer still holds the bytes of a
+								// header that went out before (it offers AvailableBuffer, ReadFrom, ...)
+								var under bytes.Buffer
+								bw := bufio.NewWriterSize(&under, 64)
+								ws.WriteHeader(bw, toWs(ph))
+								bw.Flush()
+								under.Reset()
+								if err := ws.WriteHeader(bw, toWs(h)); err != nil {
+									return explore.Failf("WriteHeader-error-into-bufio.Writer", "%v", err)
+								}
+								bw.Flush()
+								if !bytes.Equal(under.Bytes(), want) {
+									return explore.Failf("WriteHeader-bytes-depend-on-destination-history:bufio.Writer", "got %x want %x", under.Bytes(), want)
+								}
 								pr.run(ph)
 								cb, err := ws.CompileFrame(ws.Frame{Header: toWs(refmodel.Hdr{Fin: h.Fin, Rsv: h.Rsv, Op: h.Op, Masked: h.Masked, Mask: h.Mask, Len: 0})})
 								h0 := h
